@@ -40,7 +40,7 @@ demo_install || exit 2
 ( cd $WT && git apply $SRC/patch.diff ) || { echo "$ID/$V: PATCH-DOES-NOT-APPLY"; exit 2; }
 ( cd $WT && $DEMO_CMD >$ROOT/$ID-$V.demo-patched.log 2>&1 ); RC_PATCHED=$?
 # (i) full suite with the patch but without the demo
-( cd $WT && git stash -q -u -- $(git status --porcelain | grep '^??' | awk '{print $2}' | tr '\n' ' ') 2>/dev/null; true )
+( cd $WT && git clean -fdq -e target 2>/dev/null; true )
 if [ -f $SRC/demo.diff ]; then ( cd $WT && git checkout -q -- . && git apply $SRC/patch.diff ); fi
 ( cd $WT && rm -f simple-dns/tests/seed_demo*.rs simple-mdns/tests/seed_demo*.rs; cargo test --workspace --offline >$ROOT/$ID-$V.suite.log 2>&1 ); RC_SUITE=$?
 NPASS=$(grep -E "^test result: ok" $ROOT/$ID-$V.suite.log | awk '{s+=$4} END {print s+0}')
